@@ -10,6 +10,8 @@ import (
 func Register(reg func(id, level string, f func(*load.Prog, *report.Report))) {
 	reg("C01", "proof", C01)
 	reg("C02", "proof", C02)
+	reg("C03", "proof", C03)
+	reg("C04", "proof", C04)
 	reg("C05", "proof", C05)
 	reg("C07", "proof", C07)
 	reg("C10", "other", C10)
